@@ -1574,6 +1574,7 @@ class Exec:
             raise PyRaise(make_exc(self.interp, "AttributeError", f"{type(obj).__name__} has no attribute {name}"))
 
     def hasattr(self, obj, name):
+        self._probing_hasattr = getattr(self, "_probing_hasattr", 0) + 1
         try:
             self.getattr(obj, name)
             return True
@@ -1581,6 +1582,8 @@ class Exec:
             if pr.exc.cls.issub(self.interp.builtins["AttributeError"]):
                 return False
             raise
+        finally:
+            self._probing_hasattr -= 1
 
     def setattr(self, obj, name, v):
         if isinstance(obj, Obj):
@@ -2168,12 +2171,17 @@ def _b_hasattr(ex, o, n):
 
 
 def _b_getattr(ex, o, n, *d):
+    if d:
+        ex._probing_hasattr = getattr(ex, "_probing_hasattr", 0) + 1  # getattr with a default probes like hasattr
     try:
         return ex.getattr(o, n)
     except PyRaise as pr:
         if d and pr.exc.cls.issub(ex.interp.builtins["AttributeError"]):
             return d[0]
         raise
+    finally:
+        if d:
+            ex._probing_hasattr -= 1
 
 
 def _b_id(ex, o):
